@@ -154,6 +154,7 @@ type hist struct {
 	curIdx    int // table index of the configuration the harness believes active
 	prevIdx   int
 	quiesced  int
+	stopIssued bool
 }
 
 func (h *hist) prop(name string, ok bool, format string, a ...any) {
@@ -413,8 +414,8 @@ func (h *hist) snapshot(quiet bool) string {
 				h.rec.Emit("SV%s:%s", hx(exp.Addr), tblS)
 			}
 			h.rec.Emit("ST%d", stateCode[st2])
-			h.prop("c12-running", dial[exp.Addr] && served, "state Running, dial(%s)=%v served-as-configured=%v table=%s",
-				exp.Addr, dial[exp.Addr], served, tblS)
+			h.prop("c12-running", dial[exp.Addr] && served, "state Running, dial(%s)=%v served-as-configured=%v stop-issued=%v table=%s",
+				exp.Addr, dial[exp.Addr], served, h.stopIssued, tblS)
 		}
 	}
 	return st
@@ -562,7 +563,6 @@ func (h *hist) run() {
 	ctx, cancel := context.WithCancel(context.Background())
 	h.cancel = cancel
 	h.runDone = make(chan struct{})
-	stopped := false
 	hung := false
 	r := prng.New(*seed)
 
@@ -579,7 +579,7 @@ func (h *hist) run() {
 				h.rec.Emit("RR%d", runClass(err))
 				close(h.runDone)
 			}()
-			if stopped {
+			if h.stopIssued {
 				if !waitCh(h.runDone, 10*time.Second) {
 					hung = true
 				}
@@ -611,7 +611,7 @@ func (h *hist) run() {
 			time.Sleep(time.Duration(s.Ms) * time.Millisecond)
 			h.snapshot(false)
 		case "stop":
-			stopped = true
+			h.stopIssued = true
 			d := h.doStop()
 			if h.runStarted {
 				if !waitCh(h.runDone, 12*time.Second) || !waitCh(d, 3*time.Second) {
@@ -622,7 +622,7 @@ func (h *hist) run() {
 			}
 			h.snapshot(h.runStarted && !hung)
 		case "cancel":
-			stopped = true
+			h.stopIssued = true
 			h.rec.Emit("XX")
 			cancel()
 			if h.runStarted {
@@ -675,10 +675,10 @@ func (h *hist) run() {
 						if s.During == "slowstop" {
 							h.slowRequest(s.Ms)
 						}
-						stopped, interfered = true, true
+						h.stopIssued, interfered = true, true
 						h.doStop()
 					case "cancel":
-						stopped, interfered = true, true
+						h.stopIssued, interfered = true, true
 						h.rec.Emit("XX")
 						cancel()
 					case "reload2":
@@ -705,7 +705,7 @@ func (h *hist) run() {
 					time.Sleep(40 * time.Millisecond)
 				}
 			}
-			if stopped && h.runStarted {
+			if h.stopIssued && h.runStarted {
 				if !waitCh(h.runDone, 12*time.Second) {
 					hung = true
 				}
@@ -721,7 +721,7 @@ func (h *hist) run() {
 			h.mu.Unlock()
 			shut := h.shutdowns.Load() - shutBefore
 			// ---- C13 predicates on the observables (only for an undisturbed Reload on a Running server)
-			if before == "Running" && !interfered && !stopped && !hung {
+			if before == "Running" && !interfered && !h.stopIssued && !hung {
 				switch {
 				case kind == "err" || kind == "nil" || kind == "busy" || (changed && failStop):
 					h.prop("c13-visible", after == "Error", "reload #%d (%s): state after = %s", si, kind, after)
@@ -756,7 +756,7 @@ func (h *hist) run() {
 	}
 	// ---- wind down: every history ends with Run returned and every caller back
 	if !hung {
-		if !stopped && h.runStarted {
+		if !h.stopIssued && h.runStarted {
 			d := h.doStop()
 			if !waitCh(h.runDone, 12*time.Second) || !waitCh(d, 3*time.Second) {
 				hung = true
@@ -771,7 +771,7 @@ func (h *hist) run() {
 				h.rec.Emit("RR%d", runClass(err))
 				close(h.runDone)
 			}()
-			if !stopped {
+			if !h.stopIssued {
 				h.waitState(8*time.Second, func(st string) bool { return st != "New" && st != "Booting" })
 				h.doStop()
 			}
